@@ -401,8 +401,27 @@ def sign_match_cases(rng, res, n, base=None):
                                   "verify_modified_after_signing",
                                   "link_append", "link_one_key", "verify_gpg_no_id", "verify_with_output", "no_key_arg",
                                   "verify_with_empty_output", "verify_many", "verify_many", "verify_many", "link_verify_gpg_no_id",
-                                  "verify_both_key_kinds", "verify_both_key_kinds"], base, j)
-            if variant in ("sign_verify_ok", "verify_wrong_key"):
+                                  "verify_both_key_kinds", "verify_both_key_kinds",
+                                  "gpg_sign_verify_ok", "gpg_verify_other_key", "gpg_sign_default_key", "gpg_sign_envelope"], base, j)
+            if variant.startswith("gpg_") and not W.gpg_available():
+                variant = "sign_verify_ok"
+            if variant.startswith("gpg_"):
+                # signing and checking with a gpg key (by id, or the default key of the home): a traditional layout is
+                # signed and verifies with that key, not with another one; an envelope cannot be signed with gpg at all
+                g, g2 = W.gpg_key("no_sub"), W.gpg_key("no_sub2")
+                if variant == "gpg_sign_envelope":
+                    Envelope.from_signable(lay).dump("l.layout")
+                else:
+                    Metablock(signed=lay).dump("l.layout")
+                _av = ["-f", "l.layout", "-g"] + ([] if variant == "gpg_sign_default_key" else [g.keyid]) + ["--gpg-home", g.gpg_home]
+                st, _o, _e = cli.run_main("in_toto_sign", _av)
+                record(res, "sign", {"variant": variant}, st, "fail" if variant == "gpg_sign_envelope" else "success")
+                if variant not in ("gpg_sign_envelope", "gpg_sign_default_key"):      # (which key a home's default is, is gpg's business)
+                    vg = g2 if variant == "gpg_verify_other_key" else g
+                    _av = ["-f", "l.layout", "--verify", "-g", vg.keyid, "--gpg-home", vg.gpg_home]
+                    st, _o, _e = cli.run_main("in_toto_sign", _av)
+                    record(res, "sign_verify", {"variant": variant}, st, "sig" if variant == "gpg_verify_other_key" else "success")
+            elif variant in ("sign_verify_ok", "verify_wrong_key"):
                 _av = ["-f", "l.layout", "-k", priv_path(k)]
                 st, _o, _e = cli.run_main("in_toto_sign", _av)
                 record(res, "sign", {"variant": variant, "dsse": dsse, "key": k.kind}, st, "success", argv=_av, file_kind="layout")
